@@ -14,7 +14,7 @@ META = {
     "assumptions": [],
 }
 
-ELEMS = [("char", "char", 1, 1), ("int", "int", 4, 4), ("long", "long", 8, 4), ("intp", "int*", 8, 4)]
+ELEMS = [("char", "char", 1, 1), ("int", "int", 4, 4), ("long", "long", 8, 4), ("intp", "int*", 8, 4), ("llong", "long long", 8, 8)]
 IDX = {t.tag: t for t in C.STD_INTS if t.tag != "char"}
 WRAPPED = {"tint": C.INT, "tsize": C.ULONG, "tvint": C.INT}
 
@@ -95,6 +95,36 @@ def check_idx(ctx, mem, etag, N, itag, stride, log):
         ctx.validate(k, [[b0, pv, v] for v in nv], base=b0 if mem != "app" else None)
 
 
+def check_idx_wide(ctx, mem, N, stride):
+    """B32W: the index lives in sandbox memory as a 64-bit guest int and is narrowed to the application's int"""
+    k = "k_%s_int_%d_tvint" % (mem, N)
+    base = ctx.sandbox_base(32)
+    size = 1 << 32
+    args = [base]
+    if mem == "app":
+        arr = ctx.buffer(N * 4, name="arr")
+        args.append(arr)
+    else:
+        p = ctx.sym("p", 64)
+        ctx.assume(z3.UGE(p, base), z3.ULE(p - base, BV(size - N * 8, 64)))
+        args.append(p)
+    cell = ctx.sym("cell", 64)
+    ctx.assume(z3.UGE(cell, base), z3.ULE(cell - base, BV(size - 8, 64)))
+    mem0 = ctx.eng.initial_memory()
+    n = z3.Concat(*[z3.Select(mem0, cell + BV(i, 64)) for i in reversed(range(8))])
+    args.append(cell)
+    Nn = sext(n, 128)
+    inb = z3.And(Nn >= 0, Nn < N)
+    paths = ctx.run(k, args)
+    for q in paths:
+        if q.status == "ret":
+            ctx.require(q, z3.And(inb, zext(q.ret, 128) == Nn * stride), "returns only for 0 <= i < N (as a mathematical integer) and designates element i")
+        elif q.status == "abort":
+            ctx.require(q, z3.Not(inb), "aborts only when the index is out of range")
+    ctx.only(paths, "ret", "abort")
+    ctx.expect(paths, ret=1, abort=1)
+
+
 def check_2d(ctx, mem, etag, N, M, stride, log):
     k = "k2_%s_%s_%d_%d" % (mem, etag, N, M)
     base = ctx.sandbox_base(log)
@@ -152,4 +182,9 @@ def jobs(tier, seed):
                         chks.append(dict(name="%s %s %s[%d][%d]" % (sbx, mem, etag, N2, M2), fn=check_2d,
                                          kw=dict(mem=mem, etag=etag, N=N2, M=M2, stride=astride if mem == "app" else gs, log=log)))
                     out.append(Job("C17_%s_%s_%s_%d" % (sbx, mem, etag, gi), "\n".join(src) + "\n", chks, flags=["-fno-exceptions"]))
+    # guest int wider than the application's int: sandbox-resident indices are narrowed
+    wsrc = [C.PRELUDE, "using S = B32W;", kernel_src("app", "int", "int", 3, "tvint"), kernel_src("sbx", "int", "int", 3, "tvint")]
+    out.append(Job("C17_B32W", "\n".join(wsrc) + "\n", [dict(name="B32W app int[3] idx=tainted_volatile<int> (64-bit guest int)", fn=check_idx_wide, kw=dict(mem="app", N=3, stride=4)),
+                                                          dict(name="B32W sbx int[3] idx=tainted_volatile<int> (64-bit guest int)", fn=check_idx_wide, kw=dict(mem="sbx", N=3, stride=8))],
+                   flags=["-fno-exceptions"], native=False))
     return out
